@@ -28,7 +28,8 @@ SHAPES = ['L_diagonal', 'L_nondyadic', 'Q_generic', 'Q_nondyadic', 'Q_foldback_r
           'C_arch', 'C_sshape', 'C_loop', 'C_cusp', 'C_nondyadic', 'C_c1_eq_start', 'C_monotone', 'C_elevated_line',
           'A_circle_small_ccw', 'A_ellipse_rot30', 'A_eccentric_100to1', 'A_too_small', 'A_rot400']
 PATHS = [('L_diagonal', 'C_arch'), ('Q_generic', 'A_ellipse_3to1', 'L_vertical'), ('C_sshape', 'C_loop'),
-         ('A_circle_small_ccw', 'A_circle_large_cw'), ('L_horizontal', 'L_diagonal', 'L_shallow')]
+         ('A_circle_small_ccw', 'A_circle_large_cw'), ('L_horizontal', 'L_diagonal', 'L_shallow'),
+         ('DUP', 'C_arch'), ('DUP', 'L_diagonal', 'Q_generic')]
 
 
 class Over(Exception):
@@ -38,6 +39,18 @@ class Over(Exception):
 def make_curve(desc, scale, rot=0):
     if isinstance(desc, str):
         return AB.make(desc, scale, rot=rot)
+    if desc[0] == 'DUP':
+        # an outline traced forth, back and forth again: later segments are EQUAL (by value) to earlier ones
+        chainsegs = []
+        for n in desc[1:]:
+            sg = AB.make(n, scale, rot=rot)
+            if chainsegs:
+                sg = AB.make(n, scale, rot=rot, shift=chainsegs[-1].end - sg.start)
+                sg.start = chainsegs[-1].end
+            chainsegs.append(sg)
+        back = [x.reversed() for x in reversed(chainsegs)]
+        again = [type(x)(*x.bpoints()) for x in chainsegs]
+        return Path(*(chainsegs + back + again))
     segs = []
     pen = None
     for n in desc:
